@@ -167,6 +167,9 @@ def obligations(tier, seed):
                 else:
                     obs.append(Ob(PROP, 'step', dict(w=w, s=s, event=ev), budget=120 if q else 300, group='inductive step (unbounded counter)',
                                   bound=dict(w=w, s=s, counter='n = q*P + r, q >= 0 unbounded')))
+    for (w, s) in ((3, 1), (2, 3), (3, 3), (3, 2)):
+        for k in (1, 2):
+            obs.append(Ob(PROP, 'runs', dict(ctx='root', w=w, s=s, n=4, retry=k), budget=90 if q else 300, group='after an aborted subscription', bound=dict(w=w, s=s, items=4, first_subscription_aborted_after=k)))
     obs.append(Ob(PROP, 'runs', dict(ctx='root', w=3, s=2, n=5, _twin='reach'), budget=60, expect='refute'))
     obs.append(Ob(PROP, 'step', dict(w=5, s=2, event='next', _twin='reach'), budget=60, expect='refute'))
     return obs
